@@ -80,7 +80,7 @@ def parseReset (toks : List String) : Option Cfg :=
   match toks with
   | "reset" :: n :: mh :: rest =>
     match nat? n, nat? mh, rest.mapM parseLocs with
-    | some n, some mh, some ls => if n ≥ 1 ∧ n ≤ 24 ∧ ls.length = n then some { n := n, mh := mh, locals := ls } else none
+    | some n, some mh, some ls => if n ≥ 1 ∧ n ≤ 300 ∧ ls.length = n then some { n := n, mh := mh, locals := ls } else none
     | _, _, _ => none
   | _ => none
 
@@ -142,7 +142,7 @@ def exec (s : Net) (op : Op) : Net × String :=
     else (s', "r=nolink")
   | .replay a b hint =>
     if a < s.n ∧ b < s.n ∧ linked s a b then
-      let eo := (effFrames (s.nodes a) b hint).map (·.origin)
+      let eo := (effFrames (hopCap s.maxHops) (s.nodes a) b hint).map (·.origin)
       (s', line ("ord:" ++ joinOr "," (eo.map toString)) [nodeStr s' a, queueStr s' a b])
     else (s', "r=nolink")
   | .announce a _ =>
@@ -392,7 +392,7 @@ def entryChecks (p : Prop5) (o : Obs) (x : Node) (e : Entry) : List (Bool × Str
     [ (!(e.path.contains x), "self-in-path"),
       (!(hasDup e.path), "path-revisits-agent") ]
   | .c12 =>
-    if !learned then [] else
+    if !learned then [ (e.origin == x, "learned-route-without-path") ] else
     [ (e.path.head? == some e.nextHop, "path-head-not-next-hop"),
       (e.path.getLast? == some e.origin, "path-does-not-end-at-origin") ] ++
     (if o.pathIsCurrent e then
@@ -409,8 +409,11 @@ def entryChecks (p : Prop5) (o : Obs) (x : Node) (e : Entry) : List (Bool × Str
           if o.relayed.contains (e.origin, e.seq) then "metric-not-hops-via-relayed-replay" else "metric-not-hops") ]
   | .c14 => []
   | .c15 =>
-    if o.cfg.mh = 0 then [] else
-    [ (e.path.length ≤ o.cfg.mh, "stored-beyond-hop-limit") ]
+    -- the recorded path is what the hop limit is measured on: a learned route must have one, and
+    -- it must lead to the origin (otherwise the hop count was restarted somewhere)
+    [ (learned || e.origin == x, "learned-route-without-path"),
+      (!learned || e.path.getLast? == some e.origin, "hop-count-restarted") ] ++
+    (if o.cfg.mh = 0 then [] else [ (decide (e.path.length ≤ o.cfg.mh), "stored-beyond-hop-limit") ])
 
 def msgChecks (p : Prop5) (o : Obs) (m : Adv) : List (Bool × String) :=
   match p with
@@ -650,7 +653,7 @@ def stepLine (follow : Bool) (st : Option Net) (input : String) : Option Net × 
           else []
         let (s', out) := exec s (.replay a b hint)
         -- frames that are not an admissible outcome of SendFullTable are not followed
-        let admissible := !follow || !(a < s.n ∧ b < s.n ∧ linked s a b) || hintOK (s.nodes a) b hint
+        let admissible := !follow || !(a < s.n ∧ b < s.n ∧ linked s a b) || hintOK (hopCap s.maxHops) (s.nodes a) b hint
         (some s', if admissible then out else out ++ " inadmissible-frames")
       | .op (.announce a _) =>
         let hint : Option (List (List RAd)) := if follow then
